@@ -104,7 +104,7 @@ type Result struct {
 
 func NewResult(stream string) *Result {
 	return &Result{Stream: stream, Property: Prop(), Seed: Seed(), Tier: Tier(),
-		Distribution: map[string]int{}, seen: map[string]bool{}, findSeen: map[string]int{}, Extra: map[string]any{}}
+		Findings: []Finding{}, Samples: []any{}, Notes: []string{}, Distribution: map[string]int{}, seen: map[string]bool{}, findSeen: map[string]int{}, Extra: map[string]any{}}
 }
 
 func (r *Result) Count(key string) { r.mu.Lock(); r.Distribution[key]++; r.mu.Unlock() }
